@@ -584,7 +584,7 @@ func coqCase(res *result) (string, bool) {
 		q = fmt.Sprintf("(Some (QObs %s %s %s %s %s %s %s %s))", z(o.CConnInit), z(o.Flow), z(o.InAvail), z(o.InUnsent),
 			z(o.MaxFrame), z(o.MaxStreams), z(o.InitWin), z(o.NextID))
 	}
-	return "TraceCase [" + strings.Join(evs, "; ") + "] " + verdict + " " + q, truncated
+	return "TraceCase " + hk.CoqBool(res.sc.FP.hasHeaderPrio()) + " [" + strings.Join(evs, "; ") + "] " + verdict + " " + q, truncated
 }
 
 func nontrivial(log []Event) bool {
